@@ -608,7 +608,7 @@ func TestVerifC11Hosts(t *testing.T) {
 
 	nNames := vrt.Pick(r, 6, 8)
 	names := c11Names[:nNames]
-	maxLabels := vrt.Pick(r, 4, 5)
+	maxLabels := vrt.Pick(r, 4, 6)
 	singleLabels := vrt.Pick(r, 5, 6)
 	r.Bound("list_candidate_names", nNames)
 	r.Bound("lists", 1<<nNames)
@@ -730,7 +730,14 @@ func TestVerifC11Hosts(t *testing.T) {
 	vrt.Part(r, "subsets", func(emit func(c11SubsetCase)) {
 		for mask := 0; mask < 1<<nNames; mask++ {
 			for _, render := range hostRenders {
-				c11Hosts(maxLabels, func(h string) {
+				ml := maxLabels
+				if render != 3 && ml > 5 {
+					// The plain rendering differs from the messy one only in
+					// Storage.Reset (part 1); five pool labels are already
+					// two beyond every cut.
+					ml = 5
+				}
+				c11Hosts(ml, func(h string) {
 					for id := range c11IDs {
 						for repl := range c11Repls {
 							emit(c11SubsetCase{Mask: mask, Render: render, Host: h, ID: id, Repl: repl})
